@@ -2,6 +2,7 @@
 mod abs;
 mod ops;
 mod gen;
+mod cbgen;
 
 use serde_json::{json, Value};
 use std::io::{BufRead, BufReader, BufWriter, Write};
